@@ -612,18 +612,15 @@ func ruleEncoderOneOf(c *chk.Ctx) {
 			continue
 		}
 		blocks := map[string]*ssa.BasicBlock{}
-		ir.Calls(f, func(ci ssa.CallInstruction) {
-			if len(ci.Common().Args) < 2 {
-				return
-			}
-			if s, ok := constString(ci.Common().Args[1]); ok {
+		for _, em := range emitsOf(c, f, encoderFuncs(c)) {
+			if s, ok := constString(em.arg); ok {
 				for _, k := range []string{"method", "result", "error"} {
-					if strings.Contains(s, `"`+k+`"`) {
-						blocks[k] = ci.Block()
+					if strings.Contains(s, `"`+k+`"`) || s == k {
+						blocks[k] = em.at.Block()
 					}
 				}
 			}
-		})
+		}
 		if len(blocks) == 0 {
 			continue // a wrapper around the function that writes the members
 		}
